@@ -189,7 +189,8 @@ func genAddend(r *c.Rng, depth int) *Tree {
 	case k < 19 && depth > 0:
 		t.K = "SHV"
 		t.A = &Tree{K: "V64", R: r.Intn(4)}
-		t.B = genAddend(r, 0)
+		for t.B = genAddend(r, 0); t.B.K == "K64"; t.B = genAddend(r, 0) { // the amount of an SHV is not a constant instruction
+		}
 	default:
 		if depth == 0 {
 			t.K, t.R = "V64", r.Intn(4)
